@@ -10,11 +10,13 @@ C2 == <<3>>
 
 ScNW == CASE Scenario \in {"crash-put", "crash-stream", "crash-abort"} -> 2
           [] Scenario \in {"fault-put", "fault-stream", "fault-abort"} -> 1
+          [] Scenario \in {"cancel-put", "cancel-stream"} -> 2
           [] Scenario \in {"race-samekey", "race-samedir", "race-mixed"} -> 2
           [] Scenario = "race-3" -> 3
 ScNR == 1
 ScNK == 2
-ScWKey == CASE Scenario \in {"crash-put", "crash-stream", "crash-abort", "fault-put", "fault-stream", "fault-abort", "race-samekey"} -> <<1, 1, 1>>
+ScWKey == CASE Scenario \in {"crash-put", "crash-stream", "crash-abort", "fault-put", "fault-stream", "fault-abort", "race-samekey",
+                              "cancel-put", "cancel-stream"} -> <<1, 1, 1>>
             [] Scenario \in {"race-samedir", "race-mixed"} -> <<1, 2, 1>>
             [] Scenario = "race-3" -> <<1, 2, 1>>
 ScWChunks == CASE Scenario \in {"race-samedir", "race-mixed", "race-3"} -> <<C1, C2, C1>>
@@ -26,6 +28,8 @@ ScWMode == CASE Scenario = "crash-put" -> <<"put", "put", "put">>
              [] Scenario = "fault-stream" -> <<"stream", "abort", "put">>
              [] Scenario = "fault-abort" -> <<"abort", "abort", "put">>
              [] Scenario = "race-samekey" -> <<"put", "put", "put">>
+             [] Scenario = "cancel-put" -> <<"put", "put", "put">>
+             [] Scenario = "cancel-stream" -> <<"stream", "put", "put">>
              [] Scenario = "race-samedir" -> <<"put", "put", "put">>
              [] Scenario = "race-mixed" -> <<"stream", "abort", "put">>
              [] Scenario = "race-3" -> <<"put", "stream", "put">>
@@ -35,6 +39,7 @@ ScRKey == CASE Scenario \in {"race-samedir", "race-3"} -> <<2>> [] OTHER -> <<1>
 ScRPhase == CASE Scenario \in {"crash-put", "crash-stream", "crash-abort"} -> <<2>> [] OTHER -> <<1>>
 ScDirOf == <<1, 1>>      \* both keys live in the same shard directory
 ScMaxCrashes == IF Scenario \in {"crash-put", "crash-stream", "crash-abort", "race-3"} THEN 1 ELSE 0
+ScMaxCancels == IF Scenario \in {"cancel-put", "cancel-stream"} THEN 1 ELSE 0
 ScMaxFaults == IF Scenario \in {"fault-put", "fault-stream", "fault-abort", "race-mixed", "race-3"} THEN 1 ELSE 0
 
 Emit == Done => PrintT(ToJson([scenario |-> Scenario, steps |-> hist,
